@@ -61,7 +61,7 @@ type TermBuilder struct {
 	next   int
 	vars   []*Term
 	varBy  map[string]*Term
-	varsOf map[int][]*Term // memo: variables occurring in a term
+	varsOf map[int][]*Term     // memo: variables occurring in a term
 	dom    map[string][2]int64 // known small domains of variables (inclusive)
 }
 
